@@ -35,9 +35,14 @@ def run(prog, chk):
 
 def scope_pairing(prog, chk, rule):
     n_open = 0
-    is_pop = R.path_is(POP)
+    # a helper all of whose paths pop (push) is itself a pop (push)
+    pops = {POP} | R.wrappers_of(prog, {POP}, forbid={PUSH})
+    pushes = {PUSH} | R.wrappers_of(prog, {PUSH}, forbid={POP})
+    is_pop = lambda c: c.path in pops
     for body in prog.bodies.values():
-        opens = R.calls_to(body, R.path_is(PUSH))
+        if body.path in pops or body.path in pushes:
+            continue
+        opens = R.calls_to(body, lambda c: c.path in pushes)
         if not opens:
             continue
         chk.touch(body)
